@@ -66,7 +66,7 @@ def handle (b : Backend) (line : String) : Backend × String :=
     match parseInt? i, parseInt? n with
     | some i, some n =>
       match getEntryAndProof rfcLeafH rfcNodeH rfcEmptyH b i n with
-      | some (l, p) => (b, s!"{hexOrDash l.value} {hexOrDash l.extra} {hexList p}")
+      | some (v, x, p) => (b, s!"{hexOrDash v} {hexOrDash x} {hexList p}")
       | none => (b, "err")
     | _, _ => (b, "bad-op")
   | ["ents", s, e] =>
